@@ -52,6 +52,12 @@ type Argon2IDHasher struct {
 }
 
 func NewArgon2IDHasher(params *Argon2IDParams) (*Argon2IDHasher, error) {
+	if params.Time < 1 {
+		return nil, fmt.Errorf("Argon2id parameter-set has invalid time %d, must be >= 1", params.Time)
+	}
+	if params.Threads < 1 {
+		return nil, fmt.Errorf("Argon2id parameter-set has invalid threads %d, must be >= 1", params.Threads)
+	}
 	return &Argon2IDHasher{Argon2IDParams: *params}, nil
 }
 
